@@ -17,8 +17,10 @@ RULE = ("fixed boundary pools + seeded random sub-pools drawn from ~200 value ex
         "x 18 comparison forms (12 words, 6 infix) and all n^3 triples.  Laws: trichotomy per same-type pair, == reflexive/"
         "symmetric/transitive, < irreflexive/transitive, A<B <=> B>A, alias table cell by cell, no diagnostic for any pair, "
         "cross-type pairs ordered in one consistent direction, arithmetic domains by value, unrelated named domains never "
-        "equal, strings bytewise, sequences by length then element-wise, duplicates equal.  Non-trivial: a triple spanning "
-        ">= 2 constant domains or >= 2 types (counted: such triples checked); distinct = distinct value triples.")
+        "equal, strings bytewise, sequences by length then element-wise, duplicates equal.  Non-trivial: a pair of distinct "
+        "values spanning >= 2 constant domains or >= 2 types (distinct = such unordered pairs; each had all 18 comparison "
+        "forms evaluated both ways and took part in n triples; the number of triples spanning two classes is reported as "
+        "nontrivial_triples).")
 
 WORDS = ["?eq", "!eq", "?ne", "!ne", "?lt", "!lt", "?gt", "!gt", "?le", "!le", "?ge", "!ge"]
 INFIX = ["==", "!=", "<", ">", "<=", ">="]
@@ -290,6 +292,16 @@ def work(task):
             m = r["m"]
         bad, nt = check_pool(ev, fn or "core", pool, m, rnd)
         n = len(pool)
+        # distinct non-trivial cases: unordered pairs of distinct values spanning two types or two constant
+        # domains (all 18 comparison forms were evaluated on each, and it took part in n triples)
+        import hashlib
+        ks = [vkey(v) for v in pool]
+        cls = [(v["t"], v.get("d")) for v in pool]
+        for i in range(n):
+            for j in range(i + 1, n):
+                if cls[i] != cls[j] and ks[i] != ks[j]:
+                    a, b = sorted((ks[i], ks[j]))
+                    ev.nontrivial.add(hashlib.sha1((a + "|" + b).encode()).hexdigest()[:16])
         ev.evaluations += n * n * len(QUERIES)
         ev.extra["triples_checked"] = ev.extra.get("triples_checked", 0) + n ** 3
         # distinct non-trivial triples: count them (value triples over this pool)
